@@ -163,6 +163,8 @@ pub fn decode_vec<const N: usize>(base38_str: &str) -> Result<heapless::Vec<u8, 
 pub fn decode(base38_str: &str) -> impl Iterator<Item = Result<u8, Error>> + '_ {
     let stru = base38_str.as_bytes();
 
+    let mut failed = false;
+
     (0..stru.len() / 5)
         .flat_map(move |index| {
             let offset = index * 5;
@@ -172,7 +174,16 @@ pub fn decode(base38_str: &str) -> impl Iterator<Item = Result<u8, Error>> + '_ 
             let offset = stru.len() / 5 * 5;
             decode_base38(&stru[offset..])
         })
-        .take_while(Result::is_ok)
+        // Report the first error, then stop
+        .take_while(move |result| {
+            if failed {
+                return false;
+            }
+
+            failed = result.is_err();
+
+            true
+        })
 }
 
 fn decode_base38(chars: &[u8]) -> impl Iterator<Item = Result<u8, Error>> {
@@ -184,10 +195,13 @@ fn decode_base38(chars: &[u8]) -> impl Iterator<Item = Result<u8, Error>> {
         4 => 2,
         2 => 1,
         0 => 0,
-        _ => -1,
+        _ => {
+            cerr = Some(ErrorCode::InvalidData);
+            0
+        }
     };
 
-    if repeat >= 0 {
+    if cerr.is_none() {
         for c in chars.iter().rev() {
             match decode_char(*c) {
                 Ok(v) => value = value * RADIX + v as u32,
@@ -197,23 +211,27 @@ fn decode_base38(chars: &[u8]) -> impl Iterator<Item = Result<u8, Error>> {
                 }
             }
         }
-    } else {
-        cerr = Some(ErrorCode::InvalidData)
     }
 
-    (0..repeat)
-        .map(move |_| {
-            if let Some(err) = cerr {
-                Err(err.into())
-            } else {
-                let byte = (value & 0xff) as u8;
+    if cerr.is_none() && value >= 1 << (8 * repeat) {
+        // The chunk encodes a value that does not fit in the bytes it stands for
+        cerr = Some(ErrorCode::InvalidData);
+    }
 
-                value >>= 8;
+    // A chunk in error yields exactly one item - the error
+    let count = if cerr.is_some() { 1 } else { repeat };
 
-                Ok(byte)
-            }
-        })
-        .take_while(Result::is_ok)
+    (0..count).map(move |_| {
+        if let Some(err) = cerr {
+            Err(err.into())
+        } else {
+            let byte = (value & 0xff) as u8;
+
+            value >>= 8;
+
+            Ok(byte)
+        }
+    })
 }
 
 fn decode_char(c: u8) -> Result<u8, Error> {
